@@ -399,10 +399,10 @@ pub fn run_probe_property<H: HB>(prop: &'static str, tier: Tier) -> Outcome {
     if prop == "C06" {
         // deep trees one operation away from a seed (remove / change / push / pop / conversion),
         // then sorted consumption with the structured program family
-        for n in if q { vec![6usize, 7, 8] } else { vec![6, 7, 8, 9, 10, 16] } {
-            let mut c = seeds_cfg(prop, n, &REL_BIN, A_REACH);
+        for n in if q { vec![6usize, 7, 8, 16, 17] } else { vec![6, 7, 8, 9, 10, 15, 16, 17, 31, 32, 33] } {
+            let mut c = seeds_cfg(prop, n, &REL_BIN, A_REACH | A_EXTEND | A_APPEND | A_PUSH_INCDEC);
             c.deep = false;
-            let seeds = if n <= 8 { f_bin(n) } else { f_seg(n) };
+            let seeds = if n <= 8 { f_bin(n) } else if q || n > 17 { f_struct(n) } else { f_seg(n) };
             let uni = c.universe();
             let mk = |ex: &mut Explorer<H>| {
                 for p in crate::probes::all_probes::<H>("C06d", &uni[..3]) {
@@ -1175,6 +1175,38 @@ pub fn run_c18(tier: Tier) -> Outcome {
             return out;
         }
         run_seeds::<StdRandom>(&mut out, &format!("E2 seeds of {n} elements, std RandomState, depth 1"), &c, seeds, 1, &no_probes);
+        if !out.violations.is_empty() {
+            return out;
+        }
+    }
+    // == must not depend on the hasher either: independently built queues, separate instances,
+    // different hasher types
+    {
+        let t0 = Instant::now();
+        let mut cases = 0u64;
+        let mut viol = vec![];
+        'outer: for n in [5usize, 15, 16, 17, 33] {
+            for seed in f_struct(n) {
+                let Root::FromVec(pairs) = &seed else { continue };
+                for d in [false, true] {
+                    cases += 3;
+                    let r = if d {
+                        big_equality::<DPQ<StdRandom>, DPQ<StdRandom>, DPQ<CollideAll>>(pairs, |a, b| a == b, |a, b| a == b, |a, b| b == a)
+                            .and_then(|_| big_equality::<DPQ<Seeded>, DPQ<Seeded>, DPQ<FixedSip>>(pairs, |a, b| a == b, |a, b| a == b, |a, b| b == a))
+                            .and_then(|_| big_equality::<DPQ<FnvBuild>, DPQ<FnvBuild>, DPQ<StdRandom>>(pairs, |a, b| a == b, |a, b| a == b, |a, b| b == a))
+                    } else {
+                        big_equality::<PQ<StdRandom>, PQ<StdRandom>, PQ<CollideAll>>(pairs, |a, b| a == b, |a, b| a == b, |a, b| b == a)
+                            .and_then(|_| big_equality::<PQ<Seeded>, PQ<Seeded>, PQ<FixedSip>>(pairs, |a, b| a == b, |a, b| a == b, |a, b| b == a))
+                            .and_then(|_| big_equality::<PQ<FnvBuild>, PQ<FnvBuild>, PQ<StdRandom>>(pairs, |a, b| a == b, |a, b| a == b, |a, b| b == a))
+                    };
+                    if let Err(e) = r {
+                        viol.push(Case { prop: prop.into(), hasher: StdRandom::NAME.into(), double: d, root: seed.clone(), ops: vec![], last: None, probe: Some("big-equality-hashers".into()), detail: e, universe: vec![], aux: None, trail: vec![], params: vec![] });
+                        break 'outer;
+                    }
+                }
+            }
+        }
+        absorb_post(&mut out, "== between independently built queues of 5..33 elements: separate RandomState instances, seeded vs fixed sip, fnv vs RandomState, RandomState vs all-colliding", cases, viol, t0, json!({}));
         if !out.violations.is_empty() {
             return out;
         }
